@@ -278,6 +278,8 @@ class Language(object):
                 if token in "(,":
                     stack.append(None)
             elif token == ":":
+                if not stack:
+                    raise BracketMismatch(")")
                 previous = stack[-1]
                 if not isinstance(previous, Expr):
                     raise ParseError("Type annotation without an expression")
@@ -312,6 +314,8 @@ class Language(object):
                         raise MissingInputError(input)
                 else:
                     current = self.parse_operator(token).instance()
+                if not stack:
+                    raise BracketMismatch(")")
                 previous = stack.pop()
                 if previous:
                     current = Application(previous, current, fix, unify)
